@@ -88,6 +88,7 @@ type Contract struct {
 	lets     []letStmt // executed after the call, before ensures (forking allowed)
 	prelets  []letStmt // executed before the call
 	foralls  []qvar    // contract-level universally quantified variables
+	nilParams []string // parameters bound to nil
 	cases    []*Clause // explicit case split applied to every postcondition
 	asserts  []*Clause // proved at function exit, then available to the postconditions
 	script   []scriptStmt // let / assert / use / generalize in source order
@@ -626,6 +627,8 @@ func (cs *ContractSet) parseFile(pkg, path, src string) error {
 			for _, n := range strings.Fields(strings.ReplaceAll(rest, ",", " ")) {
 				cur.script = append(cur.script, scriptStmt{kind: "generalize", name: n, text: rest})
 			}
+		case "nil":
+			cur.nilParams = append(cur.nilParams, strings.Fields(rest)...)
 		case "modular":
 			cur.modular = true
 		case "trusted":
